@@ -160,7 +160,8 @@ impl Load for SingleDimLoad {
     }
 
     fn ratio(&self, other: &Self) -> Float {
-        self.value as Float / other.value as Float
+        // NOTE: nothing is loaded into an empty capacity, avoid 0/0
+        if self.value == 0 { 0. } else { self.value as Float / other.value as Float }
     }
 }
 
